@@ -147,7 +147,10 @@ class SubsetGroup(HubListener):
         self.subset_state = state
 
     def _add_data(self, data):
-        # add a new data object to group
+        # add a new data object to group (unless it already has a subset here,
+        # which happens if the group was created while the message was queued)
+        if any(s.data is data for s in self.subsets):
+            return
         s = GroupedSubset(data, self)
         data.add_subset(s)
         self.subsets.append(s)
